@@ -65,6 +65,18 @@ def job_fn(job):
     import pyrates.backend.base.base_backend as bb
     spec, outputs, vec = job['spec'], job['outputs'], job['vectorize']
     ct = build_python(spec)
+    if job.get('update'):
+        # the same path notation in update_var: the value must arrive on exactly the addressed node(s)
+        import copy
+        from fractions import Fraction
+        spec = copy.deepcopy(spec)
+        for path, val in job['update']:
+            tn = resolve(spec, path)
+            vals = list(val) if isinstance(val, (list, tuple)) else [val] * len(tn)
+            ct.update_var(node_vars={path: np.array([float(x) for x in vals]) if isinstance(val, (list, tuple))
+                                     else float(val)})
+            for (n, o, v), x in zip(tn, vals):
+                spec.nodes[n].overrides[(o, v)] = Fraction(x)
     cap = {}
 
     def stub(self, solver, func, args, T, dt, dts, y0, t0, times, **kw):
@@ -225,6 +237,16 @@ def run(tier='quick', seed=0, only=None, verbose=False):
                 jobs.append(dict(key=f"{key}|req{ri}|vec={vec}", spec=spec, outputs=req, vectorize=vec))
     if tier == 'quick':
         jobs = jobs[::2]
+    # update_var with the same paths, on circuits whose nodes share one NodeTemplate object: first every state variable
+    # gets its own initial value (array form / single nodes), then ONE node or a wildcard is addressed
+    from .c07 import base_spec
+    for shared in (True, False):
+        spec, fp = base_spec(shared, False)
+        init = [('all/o1/x', [fp() for _ in range(3)]), ('b0/li/x', fp()), ('b1/li/x', fp())]
+        for ui, upd in enumerate([('a1/o1/k', fp()), ('a0/o1/g', fp()), ('all/li/tau', fp()), ('b1/li/tau', fp())]):
+            for vec in (True, False):
+                jobs.append(dict(key=f"upd:shared={shared}|update_var:{upd[0]}|vec={vec}", spec=spec, vectorize=vec,
+                                 outputs={'w': 'all/o1/x', 'v': 'all/li/x'}, update=init + [upd]))
     if only:
         jobs = [j for j in jobs if only in j['key']]
     for job, outc in runner.run_jobs(job_fn, jobs, timeout=300):
